@@ -252,17 +252,27 @@ def clean_pass(ctx, rid):
     ri2 = [c for c in calls_in(gb, "replace_incoming")]
     ctx.need(len(ri2) == 1, "glue_blocks: replace_incoming not found")
     loop = [l for l in walk_no_nested(gb) if isinstance(l, ast.For) and any(x is ri2[0] for x in ast.walk(l))]
-    ok = False
-    det = ""
+    ok, det = (False, "")
     if loop:
-        it = loop[-1].iter
-        det = norm(it)
-        if isinstance(it, ast.Call) and norm(it.func) in ("set", "OrderedSet", "dict.fromkeys", "sorted") and ("set(" in norm(it) or "fromkeys" in norm(it) or "OrderedSet" in norm(it)):
-            ok = True
-        elif isinstance(it, ast.Name):
-            # a local list filled under a `not in` test
-            apps = [c for c in ast.walk(gb) if isinstance(c, ast.Call) and isinstance(c.func, ast.Attribute) and c.func.attr in ("append", "add") and norm(c.func.value) == it.id]
-            ok = bool(apps) and all(any(pol is True and isinstance(c, ast.Compare) and isinstance(c.ops[0], ast.NotIn) and norm(c.comparators[0]) == it.id for c, pol in sym.conjuncts(a, gb, {})) or a.func.attr == "add" for a in apps)
-            inits = [n for n in walk_no_nested(gb) if isinstance(n, ast.Assign) and norm(n.targets[0]) == it.id]
-            ok = ok and len(inits) == 1 and norm(inits[0].value) in ("[]", "set()", "OrderedSet()")
+        ok, det = iterates_distinct(gb, loop[-1].iter)
     ctx.ob(rid, site, "replace_incoming runs once per distinct successor (Block.successors lists a block twice for `cjmp c ? S : S`; the second call raises KeyError)", ok, construct="distinct-successors", node=ri2[0], detail="iterates " + det)
+
+
+def iterates_distinct(fn, it):
+    """does a loop over `it` see every element once?  (a set / OrderedSet / dict.fromkeys of something, or a local list
+    filled under a `not in` test).  Returns (ok, text)"""
+    from .. import sym
+    det = norm(it)
+    if isinstance(it, ast.Call) and norm(it.func) in ("set", "OrderedSet", "dict.fromkeys", "frozenset"):
+        return True, det
+    if isinstance(it, ast.Call) and norm(it.func) in ("sorted", "list", "tuple", "reversed") and it.args:
+        return iterates_distinct(fn, it.args[0])
+    if isinstance(it, ast.Name):
+        apps = [c for c in ast.walk(fn) if isinstance(c, ast.Call) and isinstance(c.func, ast.Attribute) and c.func.attr in ("append", "add") and norm(c.func.value) == it.id]
+        inits = [n for n in ast.walk(fn) if isinstance(n, ast.Assign) and norm(n.targets[0]) == it.id]
+        if len(inits) == 1 and not apps:
+            return iterates_distinct(fn, inits[0].value)
+        ok = bool(apps) and all(a.func.attr == "add" or any(pol is True and isinstance(c, ast.Compare) and isinstance(c.ops[0], ast.NotIn) and norm(c.comparators[0]) == it.id for c, pol in sym.conjuncts(a, fn, {})) for a in apps)
+        ok = ok and len(inits) == 1 and norm(inits[0].value) in ("[]", "set()", "OrderedSet()")
+        return ok, det + (" (filled by %s)" % "; ".join(" ".join(norm(a).split())[:40] for a in apps) if apps else "")
+    return False, det
